@@ -1,6 +1,7 @@
 package scen
 
 import (
+	"github.com/go-kid/ioc/app"
 	cd "github.com/go-kid/ioc/component_definition"
 	"github.com/go-kid/ioc/container/processors"
 )
@@ -43,6 +44,20 @@ func (r *RunO) Run() error { return r.run("run") }
 type RunN struct{ Part }
 
 func (r *RunN) Run() error { return r.run("run") }
+
+// runners that hold the application itself (they sit on a cycle with the App's own list of runners)
+type RunPA struct {
+	RunP
+	App *app.App `wire:""`
+}
+type RunOA struct {
+	RunO
+	App *app.App `wire:""`
+}
+type RunNA struct {
+	RunN
+	App *app.App `wire:""`
+}
 
 // runners whose Order is only known after their own initialisation (it reads state the container
 // provides): Order() answers 0 before Init ran
